@@ -16,6 +16,7 @@ import (
 	"github.com/dolthub/dolt/go/store/constants"
 	"github.com/dolthub/dolt/go/store/hash"
 	"github.com/dolthub/dolt/go/store/nbs"
+	"github.com/dolthub/fslock"
 )
 
 // C41 — only one process can write a database directory.
@@ -53,10 +54,27 @@ func (C41) Generate(seed uint64, tier string) *core.Scenario {
 			b.Ops = append(b.Ops, C41Op{Kind: "close", P: p})
 		case x < 93:
 			b.Ops = append(b.Ops, C41Op{Kind: "kill", P: p})
-		case x < 97:
+		case x < 94:
 			b.Ops = append(b.Ops, C41Op{Kind: "tear", Seed: r.Uint64()})
-		default:
+		case x < 95:
 			b.Ops = append(b.Ops, C41Op{Kind: "stale-index"})
+		case x < 97:
+			// what a writer that died inside the very first commit leaves: chunk records, no root
+			// record. Everybody has to be gone for that; then (often) the next writer has the lock
+			// but has not loaded the store when a second process opens the directory.
+			for q := 0; q < b.NProc; q++ {
+				b.Ops = append(b.Ops, C41Op{Kind: "kill", P: q})
+			}
+			b.Ops = append(b.Ops, C41Op{Kind: "extunlock"}, C41Op{Kind: "rootless"})
+			if r.Chance(2, 3) {
+				b.Ops = append(b.Ops, C41Op{Kind: "extlock"}, C41Op{Kind: "open", P: p, Mode: []string{"default", "skiptimeout"}[r.Intn(2)]}, C41Op{Kind: "read", P: p}, C41Op{Kind: "close", P: p}, C41Op{Kind: "extunlock"})
+			}
+		case x < 99:
+			// a writer process that holds the lock but has not loaded the store yet (the lock is
+			// taken eagerly, the journal is bootstrapped lazily)
+			b.Ops = append(b.Ops, C41Op{Kind: "extlock"})
+		default:
+			b.Ops = append(b.Ops, C41Op{Kind: "extunlock"})
 		}
 	}
 	raw, _ := json.Marshal(b)
@@ -104,10 +122,21 @@ func (C41) Execute(t *testing.T, sc *core.Scenario) *core.Result {
 	var lastAcked hash.Hash
 	var idxSnap []byte
 	contended, roOpens := 0, 0
+	rootless := false // the journal was cut back before its first root record: roots come from the manifest
 	sig := core.NewSig()
 
+	var extLock *fslock.Lock
+	defer func() {
+		if extLock != nil {
+			extLock.Unlock()
+			extLock.Close()
+		}
+	}()
 	writers := func() []int {
 		var w []int
+		if extLock != nil {
+			w = append(w, 98)
+		}
 		for i, p := range procs {
 			if p != nil && p.mode == chunks.ExclusiveAccessMode_Exclusive {
 				w = append(w, i)
@@ -201,7 +230,7 @@ func (C41) Execute(t *testing.T, sc *core.Scenario) *core.Result {
 					res.Violate("failfast-fell-back-to-read-only", "mode="+op.Mode, i, "fail-fast open returned a read-only instance instead of ErrDatabaseLocked")
 				}
 				r, _ := st.Root(ctx)
-				if !acked[r] {
+				if !acked[r] && !rootless {
 					res.Violate("read-only-sees-unacknowledged-root", "-", i, "read-only instance shows root %s which no writer has written", short(r))
 				}
 			default:
@@ -255,10 +284,10 @@ func (C41) Execute(t *testing.T, sc *core.Scenario) *core.Result {
 				res.Probe("root_error")
 				continue
 			}
-			if !acked[r] {
+			if !acked[r] && !rootless {
 				res.Violate("instance-sees-unwritten-root", "-", i, "process %d reads root %s which nobody wrote", op.P, short(r))
 			}
-			if !r.IsEmpty() {
+			if !r.IsEmpty() && !rootless {
 				if c, err := p.st.Get(ctx, r); err != nil || c.IsEmpty() {
 					res.Violate("root-chunk-unreadable", fmt.Sprintf("mode=%d", p.mode), i, "process %d cannot read its root chunk %s: %v", op.P, short(r), err)
 				}
@@ -304,6 +333,52 @@ func (C41) Execute(t *testing.T, sc *core.Scenario) *core.Result {
 					f.Close()
 					res.Fault("torn-journal-tail")
 				}
+			}
+		case "rootless":
+			if len(writers()) > 0 {
+				continue
+			}
+			idle := true
+			for _, q := range procs {
+				if q != nil {
+					idle = false
+				}
+			}
+			jp := filepath.Join(dir, journalName)
+			if jb, err := os.ReadFile(jp); idle && err == nil {
+				offs, _, kinds, _ := nbs.DsimParseJournal(jb)
+				for k := range offs {
+					if kinds[k] == 1 {
+						if offs[k] > 0 {
+							sos.SetActor(99)
+							os.Truncate(jp, offs[k])
+							os.Remove(filepath.Join(dir, indexName))
+							res.Fault("journal-without-root-record")
+							// every acknowledged root is gone with it: the manifest's root is what counts now
+							rootless = true
+						}
+						break
+					}
+				}
+			}
+		case "extlock":
+			if extLock == nil && len(writers()) == 0 {
+				sos.SetActor(98)
+				if lk, err := fslock.New(filepath.Join(dir, nbs.DsimLockFileName)); err == nil {
+					if lk.TryLock() == nil {
+						extLock = lk
+						res.Fault("lock-held-by-unloaded-writer")
+					} else {
+						lk.Close()
+					}
+				}
+			}
+		case "extunlock":
+			if extLock != nil {
+				sos.SetActor(98)
+				extLock.Unlock()
+				extLock.Close()
+				extLock = nil
 			}
 		case "stale-index":
 			if len(writers()) > 0 {
